@@ -398,6 +398,16 @@ pub fn run(run: &Run) {
             }
         }
     }
+    // long names: 63..300 characters in 1- and 3-byte characters (a message or buffer that is cut at a byte offset)
+    for n in crate::universe::class_names().into_iter().filter(|n| n.chars().count() >= 60) {
+        if !names.contains(&n) {
+            names.push(n);
+        }
+    }
+    for k in [85usize, 86, 128, 171, 341] {
+        names.push(format!("xy{}", "数".repeat(k)));
+        names.push(format!("x{}", "é".repeat(k)));
+    }
     run.bound("one_step_names", json!(names.len()));
     let mut one_step = 0u64;
     for init in &inits {
@@ -519,11 +529,24 @@ pub fn run(run: &Run) {
             let built: Vec<Term> = narsese::verif_hooks::with_seed_script(&vec![key; 64], || cs.iter().map(|c| c.build()).collect()).0;
             // the same list supplied through iterators of other shapes (size_hint (0, Some n),
             // (0, None)) must give the same outcome and post-state as the Vec
-            for mode in 1..3 {
+            for mode in 1..4 {
                 let mut t2 = init.build();
                 let b2 = built.clone();
                 let r2 = quiet_catch(AssertUnwindSafe(|| match mode {
                     1 => t2.push_components(b2.into_iter().filter(|_| true)).map_err(|_| ()),
+                    3 => {
+                        // a lazy iterator whose every element is produced by a call into the library (a clone and an
+                        // ASCII format + parse round trip of the component): mutators must be re-entrant
+                        let fa = crate::fmts::ascii();
+                        t2.push_components(b2.into_iter().map(move |c| {
+                            let text = fa.e.format_term(&c);
+                            match fa.e.parse::<narsese::enum_narsese::Narsese>(&text).ok().and_then(|n| n.try_into_term().ok()) {
+                                Some(p) if R::canon_of_term(&p) == R::canon_of_term(&c) => p,
+                                _ => c,
+                            }
+                        }))
+                        .map_err(|_| ())
+                    }
                     _ => {
                         let mut it = b2.into_iter();
                         t2.push_components(std::iter::from_fn(move || it.next())).map_err(|_| ())
@@ -536,7 +559,7 @@ pub fn run(run: &Run) {
                 if r1 != r2 || R::canon_of_term(&t1) != R::canon_of_term(&t2) {
                     let shown: Vec<String> = cs.iter().map(|c| c.show()).collect();
                     run.violation(
-                        &format!("start {} ; push_components({shown:?}) supplied through a {} iterator gives {:?} / {} but through a Vec gives {:?} / {}", init.show(), if mode == 1 { "filter" } else { "from_fn" }, r2, R::canon_of_term(&t2).show(), r1, R::canon_of_term(&t1).show()),
+                        &format!("start {} ; push_components({shown:?}) supplied through a {} iterator gives {:?} / {} but through a Vec gives {:?} / {}", init.show(), if mode == 1 { "filter" } else if mode == 3 { "lazily re-parsing map" } else { "from_fn" }, r2, R::canon_of_term(&t2).show(), r1, R::canon_of_term(&t1).show()),
                         json!({"op": "push_once", "init": init.to_json(), "list": cs.iter().map(|c| c.to_json()).collect::<Vec<_>>(), "supply": mode, "key": key}),
                         &[],
                     );
